@@ -13,9 +13,22 @@ from sqlalchemy.sql import functions as sa_fnc
 from mindsdb_sql.parser import ast
 
 
+def _is_sql_type(val):
+    # a type that can be named in CAST / CREATE TABLE: a compilable TypeEngine class that needs no further information
+    if not (isinstance(val, type) and issubclass(val, sa.types.TypeEngine)):
+        return False
+    if val.__module__ != 'sqlalchemy.sql.sqltypes' or not hasattr(val, '_compiler_dispatch'):
+        return False
+    try:
+        val()
+    except TypeError:
+        return False
+    return True
+
+
 sa_type_names = [
-    key for key, val in sa.types.__dict__.items() if hasattr(val, '__module__')
-    and val.__module__ in ('sqlalchemy.sql.sqltypes', 'sqlalchemy.sql.type_api')
+    key for key, val in sa.types.__dict__.items()
+    if not key.startswith('_') and _is_sql_type(val)
 ]
 
 
@@ -270,9 +283,13 @@ class SqlalchemyRender:
         elif isinstance(t, ast.TypeCast):
             arg = self.to_expression(t.arg)
             type = self.get_type(t.type_name)
-            if t.precision is not None:
-                type = type(*t.precision)
-            col = sa.cast(arg, type)
+            try:
+                if t.precision is not None:
+                    type = type(*t.precision)
+                col = sa.cast(arg, type)
+            except TypeError as e:
+                # the type does not take these arguments (DATE(3), ENUM(0), ARRAY without item type)
+                raise NotImplementedError(f'Type {t.type_name}: {e}')
 
             if t.alias:
                 alias = self.get_alias(t.alias)
